@@ -208,7 +208,7 @@ func specRel(opts []layers.TCPOption, a int, o int, isn uint32) uint32 {
 //@ requires[pre.past]     forall(k, 0, len(s.sendTimes), s.sendTimes[k] <= now())
 //@ ensures[C06.once]      ret0 == nil ==> specInv(s) && specInRange(s, uint32(ttl)) && old(s.sendTimes[ttl]) == 0 && s.sendTimes[ttl] != 0
 // the probe is registered (matchable by the receiver) before it is on the wire: a reply can never overtake its own bookkeeping
-//@ before Sink.WriteTo assert[C02+C05.send.registered] s.sendTimes[ttl] != 0
+//@ before Sink.WriteTo assert[C02+C05+C06.send.registered] s.sendTimes[ttl] != 0
 //@ ensures[C06.others]    forall(k, 0, len(s.sendTimes), k != int(ttl) ==> s.sendTimes[k] == old(s.sendTimes[k]))
 //@ ensures[C05.stamp]     ret0 == nil ==> wrN == old(wrN)+1 && s.sendTimes[ttl] <= wrClock && s.sendTimes[ttl] >= old(now())
 //@ ensures[C05.past]      forall(k, 0, len(s.sendTimes), s.sendTimes[k] <= now())
